@@ -569,6 +569,25 @@ def d7_corrfit(ctx):
     ctx.check(rule, 'correlators.py:Corr.fit#elements', oke, 'x = timeslice index, y = the observable at that timeslice', 'elements %s / %s' % (unparse(cx[0].elt), unparse(cy[0].elt)), cm.loc(xs[0]))
 
 
+def d13_points_in_given_order(ctx, fits, rule='C07-D7'):
+    """the data points enter the fit in the order they are given: x, y and the optional whitening matrix of the caller are index-aligned,
+    so re-ordering x and y inside least_squares (sorting by abscissa) mis-aligns a supplied inv_chol_cov_matrix"""
+    f = fits.func('least_squares')
+    params = [a.arg for a in f.args.args][:2]
+    sorts = []
+    for c in walk(f):
+        if isinstance(c, ast.Call):
+            nm = (fits.dotted(c.func) or call_name(c) or '').rpartition('.')[2]
+            if nm in ('argsort', 'lexsort', 'sort', 'sorted') and c.args and any(isinstance(y, ast.Name) and y.id in params for y in ast.walk(c.args[0])):
+                sorts.append(c)
+            if isinstance(c.func, ast.Attribute) and c.func.attr in ('sort', 'argsort') and any(isinstance(y, ast.Name) and y.id in params for y in ast.walk(c.func.value)):
+                sorts.append(c)
+    realigned = any("inv_chol_cov_matrix" in unparse(s_) and ('ix_' in unparse(s_) or '[order' in unparse(s_)) for s_ in statements(f))
+    ctx.check(rule, 'fits.py:least_squares#points-in-given-order', not sorts or realigned, 'abscissae and ordinates are used in the order given (aligned with a supplied inv_chol_cov_matrix)',
+              'the data points are re-ordered by `%s` while a supplied inv_chol_cov_matrix stays in the order of the caller: the whitening matrix is applied to the wrong points' % (unparse(sorts[0]) if sorts else ''),
+              fits.loc(sorts[0]) if sorts else None)
+
+
 def run(ctx):
     ctx.rule('C07-D1', 'layout agreement (concat | slices | Hessian block | data list | gradient row)')
     ctx.rule('C07-D2', 'implicit-function sign and Hessian')
@@ -579,6 +598,7 @@ def run(ctx):
     ctx.rule('C07-D7', 'Corr.fit selection')
     ctx.not_decided += ['that the minimiser finds the GLS solution', 'equality of fluctuations with (A^T W A)^-1 A^T W y', 'agreement between minimisers / differentiation modes']
     fits = ctx.repo.mod('fits')
+    ctx.guarded('C07-D7', 'fits.py:least_squares@point-order', d13_points_in_given_order, ctx, fits)
     ctx.guarded('C07-D1', 'fits.py:least_squares@layout', d1_layout, ctx, fits)
     ctx.guarded('C07-D3', 'fits.py:least_squares@bookkeeping', d3_bookkeeping, ctx, fits)
     ctx.guarded('C07-D4', 'fits.py:least_squares@keyorder', d4_keyorder, ctx, fits)
